@@ -86,7 +86,7 @@ def confirm(d):
     return res
 
 
-def check(d, all_props=False):
+def check(d, all_props=False, only=None):
     """Runs the registered quick check(s) against the library with the seeded change applied.  The change is
     applied to a scratch copy of /repo's working tree (outside /repo and /verif) and the check is pointed at it
     with VERIF_REPO, which is what `git -C /repo apply` + check + `git checkout -- .` would verify, without
@@ -110,7 +110,7 @@ def check(d, all_props=False):
     else:
         man = json.load(open("/verif/MANIFEST.json"))
         claimed = [c["property_id"] for c in man["checks"]]
-        props = claimed if all_props else [prop]
+        props = only or (claimed if all_props else [prop])
         res["runs"] = {}
         for p in props:
             if p not in claimed:
@@ -130,11 +130,13 @@ def check(d, all_props=False):
 if __name__ == "__main__":
     mode = sys.argv[1]
     allp = "--all" in sys.argv
+    only = [a.split("=", 1)[1].split(",") for a in sys.argv if a.startswith("--props=")]
+    only = only[0] if only else None
     for d in [a for a in sys.argv[2:] if not a.startswith("--")]:
         if mode == "confirm":
             r = confirm(d)
             print(os.path.basename(d.rstrip("/")), "confirmed" if r.get("confirmed") else "NOT CONFIRMED", json.dumps({k: r[k] for k in r if k in ("applies", "existing_tests_pass", "demo_without_change", "demo_with_change")}))
         else:
-            r = check(d, allp)
+            r = check(d, allp, only)
             print(os.path.basename(d.rstrip("/")), json.dumps(r)[:600])
         sys.stdout.flush()
